@@ -57,6 +57,7 @@ def units(tier, seed):
     dags4 = dags4[::12] if tier == "quick" else dags4
     for part in split_list(dags4, 16 if tier == "quick" else 128):
         out.append({"stage": "graphs", "p": 4, "codes": part, "light": True})
+    out += [{"stage": "wide", "k": k, "n": 8} for k in range(8)]
     out.append({"stage": "invalid"})
     out.append({"stage": "history", "depth": 2 if tier == "quick" else 3})
     out.append({"stage": "realrng"})
@@ -64,7 +65,10 @@ def units(tier, seed):
 
 
 def graph_matrix(p, code, lab):
-    ch, _ = G.decode(p, code)
+    if isinstance(code, str) and code.startswith("wide:"):
+        ch = _g.wide_targeted()[int(code[5:])]
+    else:
+        ch, _ = G.decode(p, code)
     return _g.np_dag(p, ch, lab), ch
 
 
@@ -201,6 +205,11 @@ def explore_config(p, code, lab, sizes, n, seed_arg, acc, tier):
             fails.append(("exec", dict(case0, answers=list(prefix)), "raises", "%s raised %s" % (d, r[2])))
             return tp.points
         f = judge_sample(p, ch, data, n, r[1], mapping, log, tp, d)
+        # judged for single-environment data only: coupling of the same variable across environments is not part of the property
+        reused = [c for c in tp.trace if c.get("new") is False] if len(sizes) == 1 else []
+        if reused:
+            f = f + [("rng-cells-reused", "%s: %d of the %d random draws of this one call re-use an RNG address already consumed in the same call (e.g. %s) - the draws "
+                      "for different variables / environments are perfectly coupled instead of independent" % (d, len(reused), len(tp.trace), reused[0]["addr"]))]
         for sig, msg in f:
             fails.append(("exec", dict(case0, answers=list(prefix)), sig, msg))
         if not f:
@@ -448,11 +457,27 @@ def run_realrng(acc):
                 acc.fail("realrng", {"seed": s}, "not-reproducible", "two consecutive sample(6, random_state=%d) calls differ" % s)
 
 
+def run_wide(unit, acc):
+    """10-node colliders whose parents mix node indices below and above 8 (set iteration order of the parents)."""
+    fam = _g.wide_targeted()
+    for k in range(unit["k"], len(fam), unit["n"]):
+        for lab, seed_arg in (("binint", 0), ("generic", None)):
+            fails = explore_config(_g.WIDE_P, "wide:%d" % k, lab, [6], 2, seed_arg, acc, "quick")
+            acc.extra["wide_configs"] += 1
+            seen = set()
+            for kind, case, sig, msg in fails:
+                if sig not in seen:
+                    seen.add(sig)
+                    acc.fail(kind, case, sig, msg)
+
+
 def run_unit(unit):
     acc = Acc(keep_failures=2)
     st = unit["stage"]
     if st == "graphs":
         run_graphs(unit, acc)
+    elif st == "wide":
+        run_wide(unit, acc)
     elif st == "invalid":
         run_invalid(acc)
     elif st == "history":
@@ -488,7 +513,8 @@ def describe(tier, seed):
                 "n in {None, int, per-environment list} x random_state in {None, 0}; under the owned RNG every answer of every bootstrap / forest choice cell (every single deviation always; the complete "
                 "product when <= %d executions; thorough: else every sequence with <= %d non-default answers where that fits 6000 executions). Oracle: one (n_k x p) array per environment; every value observed for that variable "
                 "in that environment; one fit per (non-source variable, environment) on the sorted parents; exactly one query per fitted model, equal to the synthetic parent "
-                "columns; output = a positive-weight answer of that model; RNG cells driving two source columns of an environment are disjoint (seeded and unseeded). 24 invalid "
+                "columns; output = a positive-weight answer of that model; RNG cells driving two source columns of an environment are disjoint (seeded and unseeded); no RNG "
+                "address is consumed twice within one call (single-environment data); 80 targeted 10-node colliders whose parents mix node indices below and above 8. 24 invalid "
                 "argument cases -> documented TypeError / ValueError; histories of <= %d perturbing operations: sample(n, random_state=s) bit-identical to the initial state; real "
                 "numpy seeds 0..9: sources not resampled with identical indices. non-trivial: execution with a non-default answer" % (
                     "12th" if tier == "quick" else "", 150 if tier == "quick" else 3000, 1 if tier == "quick" else 2, 2 if tier == "quick" else 3),
